@@ -411,4 +411,126 @@ theorem C09_archive_cex_rejected_link :
     srcNode c09aFsOut (pathSegs c09aRoot) ["p1".toList, "l".toList] = some (.link "/t/out/f".toList) := by
   decide +kernel
 
+/-! ## the lookups of the extracted bundle: the same answers, below `dst` -/
+
+/-- `LocalPathForRemoteSource` computed with the bundle directory `R` instead of the bundle's own root: the
+directory name recorded for the package, joined below `R` with the sub-path -/
+def localPathForRemoteAt (R : Str) (b : Bundle) (pkg sub : Str) : Option Str :=
+  (aget b.pkgDirs pkg).map fun dir => pathJoin3 R dir sub
+
+/-- `LocalPathForRegistrySource` computed with the bundle directory `R` -/
+def localPathForRegistryAt (R : Str) (b : Bundle) (reg ver regSub : Str) : Option Str :=
+  (aget b.regSources (reg, ver)).bind fun ps => localPathForRemoteAt R b ps.1 (finalSourceSub regSub ps.2)
+
+/-- the forward lookup uses the bundle's root for nothing but the first argument of the final join -/
+theorem C09_localPathForRemote_at (b : Bundle) (pkg sub : Str) :
+    localPathForRemote b pkg sub = localPathForRemoteAt b.root b pkg sub := by
+  unfold localPathForRemote localPathForRemoteAt
+  cases aget b.pkgDirs pkg <;> rfl
+
+theorem C09_localPathForRegistry_at (b : Bundle) (reg ver regSub : Str) :
+    localPathForRegistry b reg ver regSub = localPathForRegistryAt b.root b reg ver regSub := by
+  unfold localPathForRegistry localPathForRegistryAt
+  cases aget b.regSources (reg, ver) with
+  | none => rfl
+  | some ps => exact C09_localPathForRemote_at b ps.1 _
+
+/-- the lookups of `b.withRoot R` are the lookups of `b` computed with root `R` -/
+theorem C09_localPathForRemote_withRoot (b : Bundle) (R pkg sub : Str) :
+    localPathForRemote (b.withRoot R) pkg sub = localPathForRemoteAt R b pkg sub :=
+  C09_localPathForRemote_at (b.withRoot R) pkg sub
+
+theorem C09_localPathForRegistry_withRoot (b : Bundle) (R reg ver regSub : Str) :
+    localPathForRegistry (b.withRoot R) reg ver regSub = localPathForRegistryAt R b reg ver regSub :=
+  C09_localPathForRegistry_at (b.withRoot R) reg ver regSub
+
+/-- the reverse lookups of `b.withRoot R` at a path `p'` that lies relative to `R` where `p` lies relative to
+the root of `b` are those of `b` at `p` -/
+theorem C09_reverse_withRoot (b : Bundle) (R p p' : Str) (h : pathRel R p' = pathRel b.root p) :
+    splitLocalPath (b.withRoot R) p' = splitLocalPath b p ∧
+    sourceForLocalPath (b.withRoot R) p' = sourceForLocalPath b p := by
+  have h1 : splitLocalPath (b.withRoot R) p' = splitLocalPath b p := by
+    unfold splitLocalPath Bundle.withRoot
+    simp only [h]
+  refine ⟨h1, ?_⟩
+  unfold sourceForLocalPath
+  rw [h1]
+  rfl
+
+/-- the bundle `OpenDir` returns has the directory it was given as its root -/
+theorem C09_openDir_root_eq {o : BundleOracle} {root : Str} {m : Manifest} {b : Bundle}
+    (h : openDir o root m = some b) : b.root = root := by
+  have e := C09_openDir_root o root root m
+  rw [h] at e
+  have e' : b = b.withRoot root := by simpa using e
+  rw [e']; rfl
+
+/-- **C09_archive_lookups_rebased.** Under the hypotheses of `C09_archive_files_partial`, for every JSON
+decoder and every answer table of the address parsers: when `OpenDir` of the bundle directory `root` gives the
+bundle `b`, then `OpenDir` of the directory `dst` the archive was extracted into gives a bundle `b'` — namely `b`
+with its root replaced by `dst` — and every forward lookup of `b'` answers as the same lookup of `b` does, with
+`dst` in the place of `root`:
+
+* `LocalPathForRemoteSource(pkg, sub)` fails on both, or there is one recorded directory name `dir` with the
+  answers `root/dir/sub` on `b` and `dst/dir/sub` on `b'` (`pathJoin3`);
+* `LocalPathForRegistrySource(reg, ver, regSub)` fails on both, or there are one recorded directory name `dir`
+  and one sub-path `sub` (the registry's joined with the caller's) with the answers `root/dir/sub` and
+  `dst/dir/sub`;
+* in function form: the lookups of `b` are `localPathFor…At root b`, those of `b'` are `localPathFor…At dst b`. -/
+theorem C09_archive_lookups_rebased (fs : FS) (cwd root : Str) (h : C09ArchiveScope fs cwd root)
+    (cwd' dst : Str) (priv : Bool) (fs' : FS)
+    (hdst : DstOK dst) (hreal : RealDir fs' (pathSegs dst))
+    (hempty : ∀ q, pathSegs dst <+: q → q ≠ pathSegs dst → fs'.get q = none)
+    (hshallow : ∀ r, (srcNode fs (pathSegs root) r).isSome = true →
+      (pathSegs dst).length + r.length < resolveFuel)
+    (decode : Str → Option Manifest) (o : BundleOracle) (b : Bundle)
+    (hb : ((c09ManifestBytes fs (pathSegs root)).bind decode).bind (openDir o root) = some b) :
+    ∃ b', ((c09ManifestBytes (extractArchive cwd' priv dst fs' (writeArchive fs cwd root).1.entries).1
+        (pathSegs dst)).bind decode).bind (openDir o dst) = some b' ∧
+      b' = b.withRoot dst ∧ b.root = root ∧
+      (∀ pkg sub,
+        localPathForRemote b pkg sub = localPathForRemoteAt root b pkg sub ∧
+        localPathForRemote b' pkg sub = localPathForRemoteAt dst b pkg sub) ∧
+      (∀ reg ver regSub,
+        localPathForRegistry b reg ver regSub = localPathForRegistryAt root b reg ver regSub ∧
+        localPathForRegistry b' reg ver regSub = localPathForRegistryAt dst b reg ver regSub) ∧
+      (∀ pkg sub,
+        (localPathForRemote b pkg sub = none ∧ localPathForRemote b' pkg sub = none) ∨
+        ∃ dir, localPathForRemote b pkg sub = some (pathJoin3 root dir sub) ∧
+          localPathForRemote b' pkg sub = some (pathJoin3 dst dir sub)) ∧
+      (∀ reg ver regSub,
+        (localPathForRegistry b reg ver regSub = none ∧ localPathForRegistry b' reg ver regSub = none) ∨
+        ∃ dir sub, localPathForRegistry b reg ver regSub = some (pathJoin3 root dir sub) ∧
+          localPathForRegistry b' reg ver regSub = some (pathJoin3 dst dir sub)) := by
+  obtain ⟨_, _, hopen⟩ :=
+    C09_archive_manifest_same fs cwd root h cwd' dst priv fs' hdst hreal hempty hshallow
+  have hroot : b.root = root := by
+    cases hm : (c09ManifestBytes fs (pathSegs root)).bind decode with
+    | none => rw [hm] at hb; cases hb
+    | some m => rw [hm] at hb; exact C09_openDir_root_eq hb
+  have hR : ∀ pkg sub, localPathForRemote b pkg sub = localPathForRemoteAt root b pkg sub := by
+    intro pkg sub; rw [C09_localPathForRemote_at, hroot]
+  have hG : ∀ reg ver regSub,
+      localPathForRegistry b reg ver regSub = localPathForRegistryAt root b reg ver regSub := by
+    intro reg ver regSub; rw [C09_localPathForRegistry_at, hroot]
+  refine ⟨b.withRoot dst, ?_, rfl, hroot, ?_, ?_, ?_, ?_⟩
+  · rw [hopen decode o, hb]; rfl
+  · exact fun pkg sub => ⟨hR pkg sub, C09_localPathForRemote_withRoot b dst pkg sub⟩
+  · exact fun reg ver regSub => ⟨hG reg ver regSub, C09_localPathForRegistry_withRoot b dst reg ver regSub⟩
+  · intro pkg sub
+    rw [hR, C09_localPathForRemote_withRoot]
+    unfold localPathForRemoteAt
+    cases aget b.pkgDirs pkg with
+    | none => exact Or.inl ⟨rfl, rfl⟩
+    | some dir => exact Or.inr ⟨dir, rfl, rfl⟩
+  · intro reg ver regSub
+    rw [hG, C09_localPathForRegistry_withRoot]
+    unfold localPathForRegistryAt localPathForRemoteAt
+    cases aget b.regSources (reg, ver) with
+    | none => exact Or.inl ⟨rfl, rfl⟩
+    | some ps =>
+      cases hd : aget b.pkgDirs ps.1 with
+      | none => left; simp [hd]
+      | some dir => right; exact ⟨dir, finalSourceSub regSub ps.2, by simp [hd], by simp [hd]⟩
+
 end Slug
